@@ -40,6 +40,24 @@ Proof.
 Qed.
 Print Assumptions C03_report_same_name.
 
+(** the same for any ignore_pattern (the set of ignored names is what the pattern matches) *)
+Theorem C03_report_iff_shadowed_with : forall ign s d sh,
+  In (d, sh) (shadowing_report_with ign s) <->
+  exists v sid sv, In v (vars s) /\ v_shadowed v = Some sid /\ nth_error (vars s) (N.to_nat sid) = Some sv /\
+                   ign (t_name (v_tok v)) = false /\ str_eqb (t_name (v_tok v)) "..." = false /\
+                   d = t_range (v_tok v) /\ sh = t_range (v_tok sv).
+Proof.
+  intros ign s d sh. unfold shadowing_report_with. rewrite in_flat_map. split.
+  - intros (v & Hv & Hin). destruct (v_shadowed v) as [sid|] eqn:Es; [|destruct Hin].
+    destruct (ign (t_name (v_tok v)) || str_eqb (t_name (v_tok v)) "...") eqn:Eo; [destruct Hin|].
+    apply orb_false_iff in Eo as [E1 E2].
+    destruct (nth_error (vars s) (N.to_nat sid)) as [sv|] eqn:En; [|destruct Hin].
+    destruct Hin as [[= <- <-]|[]]. exists v, sid, sv. repeat split; auto.
+  - intros (v & sid & sv & Hv & Es & En & E1 & E2 & -> & ->). exists v. split; [exact Hv|].
+    rewrite Es, E1, E2, En. left. reflexivity.
+Qed.
+Print Assumptions C03_report_iff_shadowed_with.
+
 Theorem C03_walk_balanced : forall chunk, depth_after 1%nat (events_of_chunk chunk) = Some 1%nat.
 Proof. exact chunk_balanced. Qed.
 Print Assumptions C03_walk_balanced.
